@@ -483,8 +483,12 @@ func genC12(seed uint64, tier string) *Scenario {
 			if maxD > 2*p {
 				d := 2*p + r.i64(min64(maxD-2*p, 40*p))
 				op := Op{Kind: heavyKinds[r.n(len(heavyKinds))], Re: heavyRe, In: heavyFam.In, TimeoutNs: d, Heavy: true, N: -1, Repl: "<$0>"}
-				if heavyFam.Kind == "late-blowup" {
-					op.Kind = multiKinds[r.n(len(multiKinds))]
+				if heavyFam.Kind == "late-blowup" || heavyFam.Kind == "tail-blowup" {
+					// (not the re-entrant evaluator: its inner calls have deadlines of their own, so the
+					// operation may legitimately last several times d)
+					for op.Kind = OpReplaceFuncReentrant; op.Kind == OpReplaceFuncReentrant; {
+						op.Kind = multiKinds[r.n(len(multiKinds))]
+					}
 				}
 				if v := pristine(sc.Res[heavyRe], &op, scriptOpCap); v.capped {
 					cl.Ops = append(cl.Ops, op)
@@ -508,6 +512,16 @@ func genC12(seed uint64, tier string) *Scenario {
 			cl.Ops = append(cl.Ops, Op{Kind: multiKinds[r.n(len(multiKinds))], Re: limRe, In: in, TimeoutNs: -1, N: -1, Repl: pickRepl(r)})
 			for k := r.n(3); k > 0; k-- {
 				cl.Ops = append(cl.Ops, Op{Kind: multiKinds[r.n(len(multiKinds))], Re: limRe, In: lit(limF.Probe[r.n(len(limF.Probe))]), TimeoutNs: -1, N: -1, Repl: pickRepl(r)})
+			}
+			continue
+		}
+		if r.chance(1, 40) {
+			// a streak of calls that find nothing (whatever adapts to "this pattern keeps missing" gets its chance),
+			// then the history goes on
+			re := r.n(nre)
+			miss := []string{"#", "", "##", "\x00", "#\n#"}
+			for k := 8 + r.n(16); k > 0; k-- {
+				cl.Ops = append(cl.Ops, Op{Kind: []int{OpFindString, OpFindString, OpFindRunes, OpMatchString, OpFindAllString, OpReplace, OpSplit}[r.n(7)], Re: re, In: lit(miss[r.n(len(miss))]), N: -1, Repl: pickRepl(r), TimeoutNs: -1})
 			}
 			continue
 		}
